@@ -136,6 +136,10 @@ pub struct MergeCase {
     pub h_ids: Vec<usize>,
     /// node of g that is `left`
     pub left_node: usize,
+    /// read data of the right tree before the merge (it then holds read, "taken" data):
+    /// every data-holding node but the last one (a single-vertex tree: its only node)
+    #[serde(default)]
+    pub h_reads: bool,
 }
 
 fn permutations(v: &[usize]) -> Vec<Vec<usize>> {
@@ -178,7 +182,26 @@ pub fn check_merge<const N: usize>(acc: &mut Acc, c: &MergeCase) -> bool {
         return false;
     }
     let hcap = c.h_ids.iter().max().unwrap() + 2;
-    let hg: Sodg<N> = crate::real::build_tree::<N>(&h, &c.h_ids, hcap);
+    let mut hg: Sodg<N> = crate::real::build_tree::<N>(&h, &c.h_ids, hcap);
+    if c.h_reads {
+        let holders: Vec<usize> = (0..h.size()).filter(|i| h.data[*i].is_some()).collect();
+        let to_read: Vec<usize> = if h.size() == 1 { holders.clone() } else { holders[..holders.len().saturating_sub(1)].to_vec() };
+        if to_read.is_empty() {
+            return false; // same as the variant without reads
+        }
+        for i in to_read {
+            if guarded(|| hg.data(c.h_ids[i])).is_err() {
+                return false;
+            }
+        }
+        // the right graph must still be the whole tree (a read must not have collected it)
+        let mut want: Vec<usize> = c.h_ids.clone();
+        want.sort_unstable();
+        if guarded(|| hg.keys()).ok() != Some(want) {
+            return false;
+        }
+        acc.bump("merges_of_a_right_tree_holding_read_data", 1);
+    }
     let hsnap = hg.verif_snapshot();
     let before_keys = m.keys();
     acc.evaluations += 1;
@@ -298,7 +321,7 @@ fn h_id_plans(n: usize) -> Vec<Vec<usize>> {
 pub struct Space {
     pub g_trees: Vec<(Shape, Vec<Option<u8>>)>,
     pub h_trees: Vec<(Shape, Vec<Option<u8>>)>,
-    pub variants: Vec<(IdPlan, bool, usize)>, // g id plan, put first, h id plan index
+    pub variants: Vec<(IdPlan, bool, usize, bool)>, // g id plan, put first, h id plan index, read h's data first
 }
 
 pub fn trees(max: usize, base: u8) -> Vec<(Shape, Vec<Option<u8>>)> {
@@ -325,7 +348,8 @@ pub fn run_c11(tier: &str) -> Outcome {
             for (i, p) in G_PLANS.iter().enumerate() {
                 for put_first in [false, true] {
                     // the full product in quick; in thorough the big sizes get a rotating subset
-                    v.push((*p, put_first, i % 3));
+                    v.push((*p, put_first, i % 3, false));
+                    v.push((*p, put_first, (i + 1) % 3, true));
                 }
             }
             v
@@ -338,7 +362,7 @@ pub fn run_c11(tier: &str) -> Outcome {
         let (hi, vi) = (rest / nv, rest % nv);
         let (gs, gd) = &space.g_trees[gi];
         let (hs, hd) = &space.h_trees[hi];
-        let (plan, put_first, hplan) = space.variants[vi];
+        let (plan, put_first, hplan, h_reads) = space.variants[vi];
         if !quick && gs.size() + hs.size() >= 7 && (gi + hi + vi) % 5 != 0 {
             return; // thorough: a fifth of the variants for the largest pairs
         }
@@ -358,6 +382,7 @@ pub fn run_c11(tier: &str) -> Outcome {
                     h_data: hd.clone(),
                     h_ids: h_id_plans(hs.size())[hplan].clone(),
                     left_node,
+                    h_reads,
                 };
                 crate::inflight::begin_case(|| json!({"engine": "treegen", "property": "C11", "case": c, "kind": "crash-or-hang", "tags": ["C11"]}));
                 let counted = if n == 3 { check_merge::<3>(acc, &c) } else { check_merge::<16>(acc, &c) };
@@ -370,12 +395,12 @@ pub fn run_c11(tier: &str) -> Outcome {
         }
     });
     let mut machinery = vec![];
-    for k in ["merges_creating_vertices", "merges_with_overlapping_paths", "merges_overwriting_unread_datum_on_left", "merges_with_grouped_left", "merges_with_ungrouped_left", "merges_with_new_vertices_on_recycled_ids", "reads_after_merge"] {
+    for k in ["merges_creating_vertices", "merges_with_overlapping_paths", "merges_overwriting_unread_datum_on_left", "merges_with_grouped_left", "merges_with_ungrouped_left", "merges_with_new_vertices_on_recycled_ids", "merges_of_a_right_tree_holding_read_data", "reads_after_merge"] {
         if acc.counters.get(k).copied().unwrap_or(0) == 0 && acc.fail_total == 0 {
             machinery.push(format!("vacuous run: situation '{k}' never occurred"));
         }
     }
-    let rule = format!("every pair of labelled trees (left <= {gmax} vertices, right <= {hmax}; labels α0/x/foo, sibling labels distinct), every placement of data (distinct bytes per vertex, inline and heap), 5 id assignments of the left tree (dense, reversed, gaps, new ids landing on recycled slots, left tree built on recycled slots) x put before/after bind, 3 id assignments of the right tree, every `left`, Sodg<3> and Sodg<16>; kept if the reference model says the result stays within the limits. Oracle: Ok; right graph unchanged; the graft applied to the model as add/bind/put (new ids read back from the implementation, each absent before and never returned by next_id) equals the left graph afterwards (vertices, edges); injective mapping; then every order of reads of the data-holding vertices (<= 4 holders: all permutations) compared with the model read by read (bytes and alive set). distinct_nontrivial = merge cases inside the limits");
+    let rule = format!("every pair of labelled trees (left <= {gmax} vertices, right <= {hmax}; labels α0/x/foo, sibling labels distinct), every placement of data (distinct bytes per vertex, inline and heap), 5 id assignments of the left tree (dense, reversed, gaps, new ids landing on recycled slots, left tree built on recycled slots) x put before/after bind, 3 id assignments of the right tree, the right tree with unread data and with data that was already read before the merge, every `left`, Sodg<3> and Sodg<16>; kept if the reference model says the result stays within the limits. Oracle: Ok; right graph unchanged; the graft applied to the model as add/bind/put (new ids read back from the implementation, each absent before and never returned by next_id) equals the left graph afterwards (vertices, edges); injective mapping; then every order of reads of the data-holding vertices (<= 4 holders: all permutations) compared with the model read by read (bytes and alive set). distinct_nontrivial = merge cases inside the limits");
     super::outcome("C11", tier, "exploration", &rule, acc, true, json!({"left_trees": ng, "right_trees": nh, "variants": nv}), t0.elapsed().as_secs_f64(), vec!["checked up to the choice of new ids, which the statement leaves open".to_string(), "the merge inside longer histories (C01-C03 afterwards) is additionally explored by the Merge transition of HX in the C01-C05 runs".to_string()], machinery)
 }
 
